@@ -475,6 +475,12 @@ func (s *Sim) doAction(a *Action) {
 				s.mu.Unlock()
 				cancelStart()
 				s.apiEnd(o, r, true, nil)
+				if a.ThenStop {
+					// the ordinary shutdown idiom: cancel(); election.Stop()
+					b := Action{At: a.At, Kind: ActStop, Inst: a.Inst}
+					s.wg.Add(1)
+					s.doAction(&b)
+				}
 				if a.ThenStart {
 					// cancel(); Start(newCtx) on one goroutine, with nothing in between
 					b := Action{At: a.At, Kind: ActStart, Inst: a.Inst}
